@@ -30,7 +30,9 @@ L1 == Nodes(Leaves \cup Shareds)
 Mid == { <<"obj", "Z", <<>>>>, <<"obj", "A", << <<"leaf", "none">> >>>>, <<"list", << <<"leaf", "int1">>, <<"leaf", "none">> >>>>,
          <<"obj", "B", << <<"leaf", "none">>, <<"leaf", "none">> >>>>, <<"tuple", << <<"shared", 1>>, <<"leaf", "dstr", 1>> >>>>,
          <<"dict", << <<"k1", <<"shared", 1>>>>, <<"k2", <<"leaf", "int1">>>> >>>>,
-         <<"list", << <<"shared", 1>>, <<"leaf", "none">> >>>> }          \* a list holding an object: nested in lists, tuples, dicts
+         \* a list holding a shared object FOLLOWED by another object: nested in lists, tuples, dicts; next to the shared
+         \* object itself it is the case "met again later, at a shallower place"
+         <<"list", << <<"shared", 1>>, <<"obj", "Z", <<>>>> >>>> }
 K2 == LeavesSmall \cup Shareds \cup Mid
 
 VARIABLES t, done
